@@ -23,7 +23,7 @@ def in_domain(c):
 
 
 def run(rep, model, tier, seed, broken=()):
-    ast_run(rep, model, tier, seed, "C09", "class-entries", 1, {8}, 300, 12000,
+    ast_run(rep, model, tier, seed, "C09", "class-entries", 1, {8}, 700, 12000,
             weights=dict(klass=6, defn=1.5, generic=1, set=0.5, option=0.3, add_test=0.2, test=0.5, cpa=0.5,
                          block=1, dangling=0.2),
             gen_kw=dict(max_depth=5), settings_fn=settings_fn, in_domain=in_domain,
